@@ -48,7 +48,12 @@ type Contract struct {
 	File     string
 	Line     int
 	Lemmas   []string // spec lemma functions to instantiate (names)
+	SameAs   string            // this function is verified against (and stands for) the contract of another function, parameters mapped by position
+	FuncVars map[string]string // function-typed variables (parameters, free variables): the contract calls through them obey ("passthrough" = plugin interceptor hypothesis)
 }
+
+// FieldContracts: "pkg.Struct.field" (or "pkg.Struct.field[]" for map-of-functions fields) -> contract key
+var fieldContracts = map[string]string{}
 
 var reFuncHdr = regexp.MustCompile(`^func\s+(?:\(\s*\w*\s*(\*?)\s*(\w+)\s*\)\s*)?([\w$]+)\s*$`)
 var reLabel = regexp.MustCompile(`^\[([^\]]+)\]\s*(.*)$`)
@@ -85,6 +90,31 @@ func parseContractText(pkg, file string, src []byte) ([]*Contract, error) {
 			key += m[3]
 			cur = &Contract{Key: key, Pkg: pkg, Loops: map[int]*LoopSpec{}, File: file, Line: lineNo}
 			out = append(out, cur)
+			continue
+		}
+		if w0, r0 := splitWord(body); w0 == "fieldcontract" {
+			f := strings.Fields(r0)
+			if len(f) != 2 {
+				return nil, fmt.Errorf("%s:%d: fieldcontract <Struct.field> <contract key>", file, lineNo)
+			}
+			fieldContracts[pkg+"."+f[0]] = f[1]
+			continue
+		}
+		if w0, r0 := splitWord(body); w0 == "globalinv" {
+			key := pkg + ".#global"
+			var g *Contract
+			for _, c := range out {
+				if c.Key == key {
+					g = c
+				}
+			}
+			if g == nil {
+				g = &Contract{Key: key, Pkg: pkg, Loops: map[int]*LoopSpec{}, File: file, Line: lineNo}
+				out = append(out, g)
+			}
+			c := &Clause{Kind: "ensures", Line: lineNo, File: file}
+			c.Label, c.Props, c.Text = parseLabel(r0)
+			g.Ensures = append(g.Ensures, c)
 			continue
 		}
 		if cur == nil {
@@ -145,6 +175,17 @@ func parseContractText(pkg, file string, src []byte) ([]*Contract, error) {
 			cur.Inline = true
 		case "lemma":
 			cur.Lemmas = append(cur.Lemmas, strings.Fields(rest)...)
+		case "sameas":
+			cur.SameAs = strings.TrimSpace(rest)
+		case "funcvar":
+			f := strings.Fields(rest)
+			if len(f) != 2 {
+				return nil, fmt.Errorf("%s:%d: funcvar <name> <contract key|passthrough>", file, lineNo)
+			}
+			if cur.FuncVars == nil {
+				cur.FuncVars = map[string]string{}
+			}
+			cur.FuncVars[f[0]] = f[1]
 		default:
 			return nil, fmt.Errorf("%s:%d: unknown clause keyword %q", file, lineNo, word)
 		}
@@ -316,6 +357,13 @@ func genClauseFiles(w *World, contracts map[string]*Contract) (map[string][]byte
 		}
 		var body strings.Builder
 		for _, c := range cs {
+			if strings.HasSuffix(c.Key, ".#global") {
+				for i, cl := range c.Ensures {
+					cl.GenName = fmt.Sprintf("xvcc_%s_globalinv_%d", pkg, i)
+					fmt.Fprintf(&body, "// global invariant [%s] (%s:%d)\nfunc %s() bool {\n\treturn %s\n}\n\n", cl.Label, filepath.Base(cl.File), cl.Line, cl.GenName, cl.Text)
+				}
+				continue
+			}
 			f := w.Funcs[c.Key]
 			if f == nil {
 				return nil, fmt.Errorf("%s:%d: contract names function %s which does not exist in the current tree", c.File, c.Line, c.Key)
